@@ -6,6 +6,7 @@
 #define __constant const
 #define __local static
 #define __private
+#define restrict __restrict__
 #define CLK_LOCAL_MEM_FENCE 1
 #define CLK_GLOBAL_MEM_FENCE 2
 inline size_t get_group_id(int d)   { emu::dim3v &v = emu::st().blockIdx;  return d == 0 ? v.x : d == 1 ? v.y : v.z; }
